@@ -1,5 +1,229 @@
 package main
 
-import "verif/internal/vk"
+import (
+	"context"
+	"errors"
+	"fmt"
+	"os"
+	"path/filepath"
+	"strings"
 
-func c16Disk(r *vk.Run) {}
+	"github.com/mutagen-io/mutagen/pkg/synchronization/core"
+
+	"verif/internal/fsx"
+	"verif/internal/vk"
+)
+
+// Black-box routes for C16: real links on disk, through the real core.Scan and
+// the real core.Transition, both in portable symbolic link mode.
+
+type c16case struct {
+	link   string // root-relative path of the link
+	target string
+}
+
+// noFiles is the trivial Provider: link creation never asks for staged files.
+type noFiles struct{}
+
+func (noFiles) Provide(path string, digest []byte) (string, error) {
+	return "", errors.New("no staged files in this check")
+}
+
+func c16cases(r *vk.Run) []c16case {
+	dirs := []string{"", "d/", "d/e/"}
+	var cases []c16case
+	n := 0
+	add := func(depth int, target string) {
+		n++
+		cases = append(cases, c16case{link: fmt.Sprintf("%sl%05d", dirs[depth], n), target: target})
+	}
+	// every target over the four tokens up to five components, at depths 0..2
+	tokens := []string{"n", ".", "..", ""}
+	var rec func(prefix []string)
+	rec = func(prefix []string) {
+		if len(prefix) > 0 {
+			t := strings.Join(prefix, "/")
+			for depth := range dirs {
+				add(depth, t)
+			}
+		}
+		if len(prefix) == 5 {
+			return
+		}
+		for _, tok := range tokens {
+			rec(append(append([]string{}, prefix...), tok))
+		}
+	}
+	rec(nil)
+	// random hostile targets
+	rng := r.Rand("c16-disk")
+	extra := []string{"n", ".", "..", "", "...", "a:b", "c\\d", "..n", "n..", " ", "..", ".."}
+	for i := 0; i < r.Pick(400, 4000); i++ {
+		k := 1 + rng.Intn(12)
+		comps := make([]string, k)
+		for j := range comps {
+			comps[j] = extra[rng.Intn(len(extra))]
+		}
+		t := strings.Join(comps, "/")
+		switch rng.Intn(12) {
+		case 0:
+			t = strings.Repeat("n/", 122+rng.Intn(4)) + []string{"", "n", "nn"}[rng.Intn(3)] // straddles 247 bytes
+		case 1:
+			t = "/" + t
+		case 2:
+			t = strings.Repeat("../", rng.Intn(4)) + t
+		case 3:
+			t = strings.Repeat("n/", 1+rng.Intn(3)) + strings.Repeat("../", 1+rng.Intn(6)) + "n"
+		}
+		add(rng.Intn(len(dirs)), t)
+	}
+	return cases
+}
+
+// c16judge applies the oracle to one (route, link, target, accepted) observation.
+func c16judge(r *vk.Run, route string, c c16case, accepted bool) {
+	r.Eval(1)
+	w := map[string]string{"route": route, "link": c.link, "target": c.target}
+	ok := fsx.PortableOK(c.link, c.target)
+	if accepted {
+		r.Count("disk_"+route+"_accepted", 1)
+	} else {
+		r.Count("disk_"+route+"_rejected", 1)
+	}
+	if !ok {
+		r.Distinct(fmt.Sprintf("disk|%s|%d|%s", route, strings.Count(c.link, "/"), c.target))
+		if !accepted {
+			r.Count("disk_"+route+"_rejected_nonportable", 1)
+		}
+	}
+	if !accepted || ok {
+		return
+	}
+	if why := mustReject(c.target); why != "" {
+		r.Violation(map[string]string{"rule": "accepted-" + why, "route": route},
+			fmt.Sprintf("portable mode (%s route) accepted link %q with target %q, which must be rejected (%s)", route, c.link, c.target, why), w)
+		return
+	}
+	r.Violation(map[string]string{"rule": "accepted-escaping", "route": route},
+		fmt.Sprintf("portable mode (%s route) accepted link %q with target %q although it resolves above the root", route, c.link, c.target), w)
+}
+
+func c16Disk(r *vk.Run) {
+	cases := c16cases(r)
+	base := filepath.Join(r.Scratch(), "c16disk")
+	defer os.RemoveAll(base)
+
+	// ---- route 1: real links found by a real scan
+	scanRoot := filepath.Join(base, "scan")
+	if err := os.MkdirAll(filepath.Join(scanRoot, "d", "e"), 0o755); err != nil {
+		fmt.Println("ERROR: c16Disk:", err)
+		r.Inconclusive("c16-disk-setup")
+		return
+	}
+	var onDisk []c16case
+	for _, c := range cases {
+		if c.target == "" {
+			continue // the kernel refuses to create a link with an empty target
+		}
+		if err := os.Symlink(c.target, filepath.Join(scanRoot, filepath.FromSlash(c.link))); err != nil {
+			r.Count("disk_scan_link_not_creatable", 1)
+			continue
+		}
+		onDisk = append(onDisk, c)
+	}
+	r.Guard(map[string]string{"route": "scan", "links": fmt.Sprint(len(onDisk))}, func() {
+		st, err := fsx.Cold(scanRoot, fsx.DefaultScanConfig())
+		if err != nil {
+			fmt.Println("ERROR: c16Disk: scan failed:", err)
+			r.Inconclusive("c16-disk-scan-failed")
+			return
+		}
+		content := st.Snapshot.Content
+		seenLink, seenProblem := 0, 0
+		for _, c := range onDisk {
+			e := content
+			for _, comp := range strings.Split(c.link, "/") {
+				if e == nil {
+					break
+				}
+				e = e.Contents[comp]
+			}
+			switch {
+			case e == nil:
+				// a link the scan does not report at all is a scan defect (C12), not a verdict here
+				r.Inconclusive("c16-disk-link-missing-from-snapshot")
+				continue
+			case e.Kind == core.EntryKind_SymbolicLink:
+				seenLink++
+				if e.Target != c.target {
+					r.Violation(map[string]string{"rule": "normalized-differs", "route": "scan"},
+						fmt.Sprintf("scan recorded target %q for link %q whose target on disk is %q", e.Target, c.link, c.target),
+						map[string]string{"route": "scan", "link": c.link, "target": c.target, "recorded": e.Target})
+				}
+				c16judge(r, "scan", c, true)
+			default:
+				seenProblem++
+				c16judge(r, "scan", c, false)
+			}
+		}
+		// liveness of the sensor: both outcomes must occur
+		if seenLink == 0 || seenProblem == 0 {
+			r.Inconclusive("c16-disk-scan-sensor-dead")
+		}
+	})
+
+	// ---- route 2: the real Transition is asked to create each link
+	transRoot := filepath.Join(base, "transition")
+	if err := os.MkdirAll(filepath.Join(transRoot, "d", "e"), 0o755); err != nil {
+		fmt.Println("ERROR: c16Disk:", err)
+		r.Inconclusive("c16-disk-setup")
+		return
+	}
+	r.Guard(map[string]string{"route": "transition", "links": fmt.Sprint(len(cases))}, func() {
+		changes := make([]*core.Change, len(cases))
+		for i, c := range cases {
+			changes[i] = &core.Change{Path: c.link, New: &core.Entry{Kind: core.EntryKind_SymbolicLink, Target: c.target}}
+		}
+		results, problems, _ := core.Transition(context.Background(), transRoot, changes, &core.Cache{},
+			core.SymbolicLinkMode_SymbolicLinkModePortable, 0o600, 0o700, nil, false, noFiles{})
+		if len(results) != len(changes) {
+			fmt.Printf("ERROR: c16Disk: Transition returned %d results for %d changes\n", len(results), len(changes))
+			r.Inconclusive("c16-disk-transition-results")
+			return
+		}
+		r.Count("disk_transition_problems", int64(len(problems)))
+		created, refused := 0, 0
+		for i, c := range cases {
+			full := filepath.Join(transRoot, filepath.FromSlash(c.link))
+			fi, err := os.Lstat(full)
+			exists := err == nil && fi.Mode()&os.ModeSymlink != 0
+			if err == nil && !exists {
+				r.Violation(map[string]string{"rule": "created-other-kind", "route": "transition"},
+					fmt.Sprintf("asked to create link %q, Transition left a non-link object there", c.link),
+					map[string]string{"route": "transition", "link": c.link, "target": c.target, "mode": fi.Mode().String()})
+				continue
+			}
+			if exists {
+				created++
+				if got, _ := os.Readlink(full); got != c.target {
+					r.Violation(map[string]string{"rule": "normalized-differs", "route": "transition"},
+						fmt.Sprintf("Transition created link %q with target %q instead of %q", c.link, got, c.target),
+						map[string]string{"route": "transition", "link": c.link, "target": c.target, "created": got})
+				}
+			} else {
+				refused++
+			}
+			// the reported result and the disk must tell the same story (C09 owns
+			// that statement; here it only guards the sensor)
+			if (results[i] != nil) != exists {
+				r.Count("disk_transition_result_disagrees_with_disk", 1)
+			}
+			c16judge(r, "transition", c, exists)
+		}
+		if created == 0 || refused == 0 {
+			r.Inconclusive("c16-disk-transition-sensor-dead")
+		}
+	})
+	r.Sample(map[string]string{"route": "scan+transition", "links_on_disk": fmt.Sprint(len(onDisk)), "links_requested": fmt.Sprint(len(cases)), "example_link": "d/l", "example_target": "./../..", "reference": "escapes"})
+	r.Assume("disk routes: a link is accepted by a scan iff the real core.Scan (portable mode, default probing) reports entry kind SymbolicLink for it, and accepted by a transition iff the link exists on disk after the real core.Transition was asked to create it in portable mode; links with an empty target cannot exist on Linux and are driven through the transition route only")
+}
